@@ -11,3 +11,6 @@ import CantoVerif.Proofs.CoinswapArith
 import CantoVerif.Proofs.CoinswapEffects
 import CantoVerif.Proofs.CoinswapWF
 import CantoVerif.Props.C01
+import CantoVerif.Model.Onboarding
+import CantoVerif.Spec.Onboarding
+import CantoVerif.Driver.Onboarding
